@@ -1,6 +1,7 @@
 package main
 
 import (
+	"math"
 	"errors"
 	"fmt"
 	"math/rand"
@@ -150,7 +151,9 @@ func genBreaker(r *rand.Rand, n int, tier string, emit func(string) string) {
 		}
 		delay := int64(r.Intn(200))
 		dfn := int64(-1)
-		if r.Intn(3) == 0 {
+		if r.Intn(12) == 0 {
+			delay = math.MaxInt64 // "stay open until closed by hand"
+		} else if r.Intn(3) == 0 {
 			dfn = pick(r, int64(0), 0, 1, int64(r.Intn(300)), delay, delay+1)
 		}
 		now := int64(r.Intn(1000))
@@ -202,6 +205,9 @@ func genBreaker(r *rand.Rand, n int, tier string, emit func(string) string) {
 					d = period + int64(r.Intn(50))
 				default:
 					d = int64(r.Intn(300))
+				}
+				if d > 1_000_000_000_000_000 {
+					d = int64(r.Intn(300)) // an unbounded delay is never waited out
 				}
 				now += d
 				op = fmt.Sprintf("adv %d", d)
